@@ -312,6 +312,9 @@ func runC12(c *eng.Ctx) {
 		c.Check(sd, "stream deletion reaches the groups", p.Pos(fn.Pos()), "StreamDeleted is invoked for every group", "removeStream does not tell every consumer group about the deleted stream (none, or only some — e.g. only those this server coordinates): on the other servers the members stay subscribed and keep its partitions, and after a coordinator change that stale state is served")
 	}
 	c.Floor(1)
+	// ---- R14.6 the group errors reach FetchConsumerGroupAssignments' identity tests unwrapped
+	nSent := ruleSentinelIdentity(c, "R14.6", []string{"server.(*apiServer).FetchConsumerGroupAssignments"}, "a member is not told that it lost membership / the coordinator moved / its epoch is stale, and keeps consuming partitions that now belong to someone else")
+	c.Check(nSent >= 4, "group sentinels resolved", "", "identity comparisons with the consumer-group sentinels resolved to their producers", "fewer identity comparisons with group sentinels than on the reference tree")
 }
 
 // freeVarNamed matches a variable captured from the enclosing function: Strip resolves a single-store captured cell to the
